@@ -1,4 +1,5 @@
 import SamplyModel.Lemmas.QuotaHist
+import SamplyModel.Lemmas.QuotaConc
 /-!
 # C15 — cache eviction removes only the least-recently-used excess, inside its root
 
@@ -611,6 +612,108 @@ those whose *last reported access* is oldest. -/
 theorem C15_atime_is_last_report (rel : Path) (notes : List Note) (inv : List Row) :
     atimeOf rel (notes.foldl applyNote inv) = lastReport rel (atimeOf rel inv) notes :=
   atimeOf_foldl rel notes inv
+
+/-! ### The lock gap: a pass split into its atomic sections, interleaved with notifications
+(`Model/QuotaConc.lean`; quota_manager.rs:221-229, 258-266 release the inventory mutex between the selection
+and every single delete) -/
+
+/-- **Confinement under every interleaving.** Start a schedule with no pass running; let the eviction task
+begin passes and execute their sections (`begin`, `pass`) in *any* interleaving with *any* notifications
+(`created` / `accessed` / `deleted`, valid or not, for any path) issued by other tasks: no hypothesis on the
+table, the file system or the settings. Nodes only disappear, and every node that disappears has the managed
+root as a prefix of its physical path. -/
+theorem C15_conc_confined (now : Nat) (cw : CWorld) (evs : List CEv) (hs : NoteSched evs) (m : Mgr)
+    (hm : cw.w.mgr = some m) (h0 : cw.run = none) :
+    (∀ k n, (crun now cw evs).w.fs.lookup k = some n → cw.w.fs.lookup k = some n) ∧
+    ∀ q, (crun now cw evs).w.fs.lookup q = cw.w.fs.lookup q ∨
+      ((crun now cw evs).w.fs.lookup q = none ∧ ∃ rel, q = m.cfg.root ++ rel) := by
+  have H0 : ConfInv m.cfg.root cw.w.fs cw :=
+    ⟨(fun m' h => by rw [hm] at h; cases h; rfl), (fun r h => by rw [h0] at h; cases h),
+     (fun r h => by rw [h0] at h; cases h), Sub.refl _, fun q => Or.inl rfl⟩
+  have H := H0.crun now evs hs
+  exact ⟨H.sub, H.only⟩
+
+/-- **Every deleted file was selected by the pass**, for every schedule whatsoever (any interleaved
+operations): each `remove_file` call is for a candidate `(row, path)` that one of the selections returned … -/
+theorem C15_conc_selected (now : Nat) (cw : CWorld) (evs : List CEv) (hl : cw.log = []) (h0 : cw.run = none) :
+    ∀ a ∈ (crun now cw evs).log, (a.row, a.path) ∈ (crun now cw evs).sel := by
+  have H0 : SelInv cw := ⟨(fun a ha => by rw [hl] at ha; cases ha), (fun r h => by rw [h0] at h; cases h)⟩
+  exact (H0.crun now evs).log
+
+/-- … and a selection only returns rows of the table as it is *at that moment* (under the lock), each with a
+path under the root. -/
+theorem C15_conc_selection_sound (fs : FS) (root : Path) (inv : List Row) :
+    (∀ ms cs, sizeCands fs root (sortLRU inv) inv ms = some cs →
+      ∀ c ∈ cs, c.1 ∈ inv ∧ ∃ rel, c.2 = root ++ rel) ∧
+    (∀ cut cs, ageCandidates fs root inv cut = some cs → ∀ c ∈ cs, c.1 ∈ inv ∧ ∃ rel, c.2 = root ++ rel) := by
+  constructor
+  · intro ms cs h c hc
+    obtain ⟨⟨r, hr, e⟩, h2, _⟩ := sizeCands_safe fs root _ inv ms cs h c hc
+    exact ⟨by rw [e]; exact (sortLRU_perm inv).mem_iff.mp hr, h2⟩
+  · intro cut cs h c hc
+    obtain ⟨h1, h2, _⟩ := ageCands_safe fs root inv cut cs h c hc
+    exact ⟨h1, h2⟩
+
+/-- **Bookkeeping, per section (partial).** Proved for every state: (1) no section of a pass adds or alters a
+row; (2) the unlink section leaves the table alone and logs the call; (3) on a plain candidate `root/rel` (what
+a selection returns on a good table, `C15_confined_plain`) the bookkeeping section after an unlink that did
+not fail forgets exactly the rows with that key — independently of what ran since the selection — and leaves
+the file system alone. **Missing** for the full clause "after quiescence the bookkeeping matches the disk for
+every file that was not notified while the pass ran": the induction over schedules that carries `Good` and the
+candidate's plainness from the selection to its bookkeeping section through arbitrary notifications about
+*other* keys (`C15_record_created/accessed` say those leave the row alone). That clause is judged on every
+stepped-pass case (`judgeQuiescence`). -/
+theorem C15_conc_bookkeeping_partial (now : Nat) (cw : CWorld) (r : Running) (m : Mgr) (inv : List Row)
+    (hr : cw.run = some r) (hm : cw.w.mgr = some m) (hdb : cw.w.db = some inv) :
+    (∀ inv', (pstep now cw).w.db = some inv' → ∀ x ∈ inv', x ∈ inv) ∧
+    (∀ row p rest, r.unlinked = none → r.pending = (row, p) :: rest →
+      (pstep now cw).w.db = some inv ∧ (pstep now cw).w.fs = (unlink cw.w.fs p).2 ∧
+      (pstep now cw).log = cw.log ++ [⟨row, p, (unlink cw.w.fs p).1⟩]) ∧
+    (∀ row res, m.poisoned = false → r.unlinked = some (row, r.cfg.root ++ row.rel, res) → res ≠ .err →
+      DirChain cw.w.fs [] r.cfg.root → NoLinkBelow cw.w.fs r.cfg.root row.rel →
+      (pstep now cw).w.db = some (inv.filter fun x => !(x.rel == row.rel)) ∧ (pstep now cw).w.fs = cw.w.fs) :=
+  ⟨fun inv' h' => pstep_rows_subset now cw inv inv' hdb h',
+   fun row p rest hu hpd => pstep_unlink now cw r m inv row p rest hr hm hdb hu hpd,
+   fun row res hp hu hres hroot hplain => pstep_forget_exact now cw r m inv row res hr hm hdb hp hu hres hroot hplain⟩
+
+/-- three files `p` (oldest), `a`, `b` of 10 bytes under `/root`, maximum 20: a pass has to remove exactly `p` -/
+def C15_raceWorld : World :=
+  ⟨[(["root"], .dir), (["root", "p"], .file), (["root", "a"], .file), (["root", "b"], .file)],
+   some [⟨["p"], 10, 100, 100⟩, ⟨["a"], 10, 200, 200⟩, ⟨["b"], 10, 300, 300⟩],
+   some ⟨⟨["root"], some 20, none⟩, false⟩⟩
+
+/-- **The clause that FAILS under interleaving: "least-recently-accessed order, no more than necessary".**
+The pass selects `p` (least recently used); before it unlinks `p`, another task re-creates the file and
+reports it (`mkfile`, `created p` at time 900 — e.g. the symbol is downloaded again); the pass then deletes the
+*new* file and its bookkeeping forgets the *new* row. The result (`p` gone from disk and inventory, `a` and `b`
+kept) is the result of **neither** sequential order: reported-then-pass keeps `p` (most recently used) and
+removes `a`; pass-then-reported ends with `p` on disk and recorded. (Confinement, "selected by the pass" and
+bookkeeping = disk still hold, in accordance with the theorems above.) Reproduced on the real code by the
+harness (`passbegin` … `passstep`), candidate finding C15-race-recreated-file-deleted. -/
+theorem C15_conc_counterexample_lru :
+    let mk := Op.mkfile ["root", "p"]
+    let rep := Op.created ["root", "p"] 10 900
+    let fin := crun 1000 (CWorld.ofWorld C15_raceWorld) [.begin, .ext mk, .ext rep, .pass, .pass, .pass]
+    let s1 := (step 1000 (step 1000 (step 1000 C15_raceWorld mk).1 rep).1 .evict).1
+    let s2 := (step 1000 (step 1000 (step 1000 C15_raceWorld .evict).1 mk).1 rep).1
+    (fin.run.isNone = true ∧ fin.w.fs.lookup ["root", "p"] = none ∧
+      fin.w.db.map (·.map (·.rel)) = some [["a"], ["b"]] ∧
+      fin.log.map (fun a => (a.row.atime, a.path, a.res)) = [(100, ["root", "p"], .ok)]) ∧
+    (s1.fs.lookup ["root", "p"] = some .file ∧ s1.db.map (·.map (·.rel)) = some [["p"], ["b"]]) ∧
+    (s2.fs.lookup ["root", "p"] = some .file ∧ s2.db.map (·.map (·.rel)) = some [["a"], ["b"], ["p"]]) := by
+  decide
+
+/-- … whereas an `accessed` report that lands in the gap is harmless in the sense of the property: the
+outcome is exactly that of the sequential history "pass, then the report" (the report finds no row), and a
+pass that is not interfered with is the atomic pass of the sequential model. -/
+theorem C15_conc_accessed_in_gap_is_sequential :
+    let acc := Op.accessed ["root", "p"] 900
+    let fin := crun 1000 (CWorld.ofWorld C15_raceWorld) [.begin, .ext acc, .pass, .pass, .pass]
+    let s := (step 1000 (step 1000 C15_raceWorld .evict).1 acc).1
+    let alone := crun 1000 (CWorld.ofWorld C15_raceWorld) [.begin, .pass, .pass, .pass]
+    (fin.w.fs = s.fs ∧ fin.w.db = s.db ∧ fin.run.isNone = true) ∧
+    (alone.w.fs = (step 1000 C15_raceWorld .evict).1.fs ∧ alone.w.db = (step 1000 C15_raceWorld .evict).1.db) := by
+  decide
 
 /-! ### The repaired defects as theorems about the pre-fix loop (`…Legacy`) -/
 
